@@ -1,9 +1,10 @@
 (* C22, unbounded: ANY world, ANY names, ANY number of concurrent AddPod /
-   RemovePod / AddNode / RemoveNode operations, EVERY schedule.  An inductive
-   (ownership) invariant over the interleaving system of Refs.v shows: at every
-   reachable state either the trace contains the AddNode/RemovePod
-   check-then-act overlap (window_addnode_removepod), or the invariant holds;
-   when all operations have finished the invariant is Ref.
+   RemovePod / AddNode / RemoveNode / create / remove-workload operations, EVERY
+   schedule (no injected failure).  An inductive (ownership) invariant over the
+   interleaving system of Refs.v shows: at every reachable state either the
+   trace contains one of the two check-then-act overlaps
+   (window_addnode_removepod, window_create_removenode), or the invariant
+   holds; when all operations have finished the invariant is Ref.
 
    Method: each operation's program is unfolded into a first-order control
    state [pc] with [prog_at pc] its remaining program; [pc_sim] shows that one
@@ -34,7 +35,30 @@ Inductive pc :=
 | RN_rm (n p : string)
 | RN_delst (n p : string)
 | RN_prm (n p : string)
-| RN_unlock (p : string) (b : bool).
+| RN_unlock (p : string) (b : bool)
+(* create of one instance (id) on node n *)
+| CR_get1 (n id : string)
+| CR_lock (n id p : string)
+| CR_cap (n id p : string)
+| CR_alloc (n id p : string)
+| CR_unlock (n id p : string) (b : bool)
+| CR_get2 (n id : string)
+| CR_addwl (n id : string)
+| CR_rmwl (n id : string)
+(* create's rollback of the allocation *)
+| RB_get (n : string)
+| RB_lock (n p : string)
+| RB_ralloc (n p : string)
+(* remove of workload id *)
+| RW_getwl1 (id : string)
+| RW_getnode (id n : string)
+| RW_lockp (id n p : string)
+| RW_getwl2 (id n p : string)
+| RW_lockc (id n p : string)
+| RW_usage (id n p : string)
+| RW_rm (id n p : string)
+| RW_usage2 (id n p : string)
+| RW_fin (id p : string) (b : bool).
 
 Definition call_of (c : pc) : option rcall :=
   match c with
@@ -54,6 +78,18 @@ Definition call_of (c : pc) : option rcall :=
   | RN_rm n _ => Some (CRemoveNode n)
   | RN_setst n _ => Some (CSetStatus n)
   | RN_delst n _ => Some (CDelStatus n)
+  | CR_get1 n _ | CR_get2 n _ | RB_get n | RW_getnode _ n => Some (CGetNode n)
+  | CR_lock _ _ p | RB_lock _ p | RW_lockp _ _ p => Some (CLock (plock p))
+  | CR_cap n _ _ => Some (PCapacity n)
+  | CR_alloc n _ _ => Some (PAlloc n)
+  | CR_unlock _ _ p _ => Some (CUnlock (plock p))
+  | CR_addwl n id => Some (CAddWl id n)
+  | CR_rmwl _ id | RW_rm id _ _ => Some (CRemoveWl id)
+  | RB_ralloc n _ => Some (PRollbackAlloc n)
+  | RW_getwl1 id | RW_getwl2 id _ _ => Some (CGetWl id)
+  | RW_lockc id _ _ => Some (CLock (clock id))
+  | RW_usage _ n _ | RW_usage2 _ n _ => Some (PSetUsage n)
+  | RW_fin id _ _ => Some (CUnlock (clock id))
   end.
 
 Definition next (c : pc) (r : reply) : pc :=
@@ -78,6 +114,26 @@ Definition next (c : pc) (r : reply) : pc :=
   | RN_rm n p => if negb (r_ok r) then RN_unlock p false else RN_delst n p
   | RN_delst n p => RN_prm n p
   | RN_prm _ p => RN_unlock p (r_ok r)
+  | CR_get1 n id => if negb (r_ok r) then Done false else CR_lock n id (hd_str (r_strs r))
+  | CR_lock n id p => CR_cap n id p
+  | CR_cap n id p => if negb (r_ok r) then RN_unlock p false else CR_alloc n id p
+  | CR_alloc n id p => CR_unlock n id p (r_ok r)
+  | CR_unlock n id _ b => if negb b then Done false else CR_get2 n id
+  | CR_get2 n id => if negb (r_ok r) then RB_get n else CR_addwl n id
+  | CR_addwl n id => if r_ok r then Done true else CR_rmwl n id
+  | CR_rmwl n _ => RB_get n
+  | RB_get n => if negb (r_ok r) then Done false else RB_lock n (hd_str (r_strs r))
+  | RB_lock n p => RB_ralloc n p
+  | RB_ralloc _ p => RN_unlock p false
+  | RW_getwl1 id => if negb (r_ok r) then Done false else RW_getnode id (hd_str (r_strs r))
+  | RW_getnode id n => if negb (r_ok r) then Done false else RW_lockp id n (hd_str (r_strs r))
+  | RW_lockp id n p => RW_getwl2 id n p
+  | RW_getwl2 id n p => if negb (r_ok r) then RN_unlock p false else RW_lockc id n p
+  | RW_lockc id n p => RW_usage id n p
+  | RW_usage id n p => if negb (r_ok r) then RW_fin id p false else RW_rm id n p
+  | RW_rm id n p => if r_ok r then RW_fin id p true else RW_usage2 id n p
+  | RW_usage2 id _ p => RW_fin id p false
+  | RW_fin _ p b => RN_unlock p b
   end.
 
 Definition unl (lk : bool) (p : string) (q : prog) : prog :=
@@ -104,6 +160,29 @@ Definition rn_get2 (n p : string) : prog :=
   Do (CGetNode n) (fun r' =>
     if negb (r_ok r' && String.eqb (hd_str (r_strs r')) p) then rn_unlock p false else rn_list n p).
 
+Definition rb_ralloc (n p : string) : prog := Do (PRollbackAlloc n) (fun _ => rn_unlock p false).
+Definition cr_rmwl (n id : string) : prog := Do (CRemoveWl id) (fun _ => rollback_alloc n).
+Definition cr_addwl (n id : string) : prog := Do (CAddWl id n) (fun r4 => if r_ok r4 then Ret true else cr_rmwl n id).
+Definition cr_get2 (n id : string) : prog :=
+  Do (CGetNode n) (fun r3 => if negb (r_ok r3) then rollback_alloc n else cr_addwl n id).
+Definition cr_unlock (n id p : string) (b : bool) : prog :=
+  Do (CUnlock (plock p)) (fun _ => if negb b then Ret false else cr_get2 n id).
+Definition cr_alloc (n id p : string) : prog := Do (PAlloc n) (fun r2 => cr_unlock n id p (r_ok r2)).
+Definition cr_cap (n id p : string) : prog :=
+  Do (PCapacity n) (fun r1 => if negb (r_ok r1) then rn_unlock p false else cr_alloc n id p).
+Definition rw_fin (id p : string) (b : bool) : prog := Do (CUnlock (clock id)) (fun _ => rn_unlock p b).
+Definition rw_usage2 (id n p : string) : prog := Do (PSetUsage n) (fun _ => rw_fin id p false).
+Definition rw_rm (id n p : string) : prog :=
+  Do (CRemoveWl id) (fun r4 => if r_ok r4 then rw_fin id p true else rw_usage2 id n p).
+Definition rw_usage (id n p : string) : prog :=
+  Do (PSetUsage n) (fun r3 => if negb (r_ok r3) then rw_fin id p false else rw_rm id n p).
+Definition rw_lockc (id n p : string) : prog := Do (CLock (clock id)) (fun _ => rw_usage id n p).
+Definition rw_getwl2 (id n p : string) : prog :=
+  Do (CGetWl id) (fun r2 => if negb (r_ok r2) then rn_unlock p false else rw_lockc id n p).
+Definition rw_lockp (id n p : string) : prog := Do (CLock (plock p)) (fun _ => rw_getwl2 id n p).
+Definition rw_getnode (id n : string) : prog :=
+  Do (CGetNode n) (fun r1 => if negb (r_ok r1) then Ret false else rw_lockp id n (hd_str (r_strs r1))).
+
 Definition prog_at (c : pc) : prog :=
   match c with
   | Done b => Ret b
@@ -125,14 +204,37 @@ Definition prog_at (c : pc) : prog :=
   | RN_rm n p => rn_rm n p
   | RN_delst n p => rn_delst n p
   | RN_prm n p => rn_prm n p
+  | CR_get1 n id => create n id
+  | CR_lock n id p => Do (CLock (plock p)) (fun _ => cr_cap n id p)
+  | CR_cap n id p => cr_cap n id p
+  | CR_alloc n id p => cr_alloc n id p
+  | CR_unlock n id p b => cr_unlock n id p b
+  | CR_get2 n id => cr_get2 n id
+  | CR_addwl n id => cr_addwl n id
+  | CR_rmwl n id => cr_rmwl n id
+  | RB_get n => rollback_alloc n
+  | RB_lock n p => Do (CLock (plock p)) (fun _ => rb_ralloc n p)
+  | RB_ralloc n p => rb_ralloc n p
+  | RW_getwl1 id => remove_wl id
+  | RW_getnode id n => rw_getnode id n
+  | RW_lockp id n p => rw_lockp id n p
+  | RW_getwl2 id n p => rw_getwl2 id n p
+  | RW_lockc id n p => rw_lockc id n p
+  | RW_usage id n p => rw_usage id n p
+  | RW_rm id n p => rw_rm id n p
+  | RW_usage2 id n p => rw_usage2 id n p
+  | RW_fin id p b => rw_fin id p b
   end.
 
 (* the pod / node operations and their initial control states *)
-Inductive pnop := PAddPod (p : string) | PRemovePod (p : string) | PAddNode_ (n p : string) | PRemoveNode_ (n : string).
+Inductive pnop := PAddPod (p : string) | PRemovePod (p : string) | PAddNode_ (n p : string) | PRemoveNode_ (n : string)
+  | PCreate (n id : string) | PRemoveWl (id : string).
 Definition rop_of (o : pnop) : rop :=
-  match o with PAddPod p => OAddPod p | PRemovePod p => ORemovePod p | PAddNode_ n p => OAddNode n p | PRemoveNode_ n => ORemoveNode n end.
+  match o with PAddPod p => OAddPod p | PRemovePod p => ORemovePod p | PAddNode_ n p => OAddNode n p | PRemoveNode_ n => ORemoveNode n
+  | PCreate n id => OCreate n id | PRemoveWl id => ORemoveWl id end.
 Definition pc0 (o : pnop) : pc :=
-  match o with PAddPod p => AP p | PRemovePod p => RP_list1 p | PAddNode_ n p => AN_padd n p | PRemoveNode_ n => RN_get1 n end.
+  match o with PAddPod p => AP p | PRemovePod p => RP_list1 p | PAddNode_ n p => AN_padd n p | PRemoveNode_ n => RN_get1 n
+  | PCreate n id => CR_get1 n id | PRemoveWl id => RW_getwl1 id end.
 
 Lemma prog_at_pc0 : forall o, prog_of (rop_of o) = prog_at (pc0 o).
 Proof. destruct o; reflexivity. Qed.
@@ -149,7 +251,8 @@ Proof.
      try (destruct o; cbn; try reflexivity; destruct s; reflexivity);
      try (destruct lk; reflexivity);
      try (destruct (o && String.eqb (hd_str s) p); reflexivity);
-     try (destruct (o && is_nil s); [reflexivity | destruct lk; reflexivity])).
+     try (destruct (o && is_nil s); [reflexivity | destruct lk; reflexivity]);
+     try (destruct b; reflexivity)).
 Qed.
 
 Definition astep (w : rw) (i : nat) (c : pc) : option (rw * pc * ev) :=
@@ -255,6 +358,36 @@ Proof.
   replace (Nat.ltb il ic) with true by (symmetry; apply Nat.ltb_lt; exact L4). reflexivity.
 Qed.
 
+(* the create/RemoveNode overlap (window 2), as a proposition *)
+Definition Ovl2 (tr : list ev) : Prop :=
+  exists ia ir il ig t1 t2 n id okl,
+    t1 <> t2 /\ ev_at tr ia (t1, CAddWl id n, true) /\ ev_at tr ir (t2, CRemoveNode n, true)
+    /\ ev_at tr il (t2, CListNodeWls n, okl) /\ ev_at tr ig (t1, CGetNode n, true)
+    /\ il < ia /\ il < ir /\ ig < ir /\ ig < ia.
+Lemma Ovl2_ext : forall tr x, Ovl2 tr -> Ovl2 (tr ++ [x]).
+Proof.
+  intros tr x (ia & ir & il & ig & t1 & t2 & n & id & okl & H0 & H1 & H2 & H3 & H4 & H5).
+  exists ia, ir, il, ig, t1, t2, n, id, okl. repeat split; try apply ev_at_ext; tauto.
+Qed.
+Lemma Ovl2_window : forall tr, Ovl2 tr -> window_create_removenode tr = true.
+Proof.
+  intros tr (ia & ir & il & ig & t1 & t2 & n & id & okl & Hne & Ha & Hr & Hl & Hg & L1 & L2 & L3 & L4).
+  assert (S : forall j e, ev_at tr j e -> In j (seq 0 (List.length tr))).
+  { intros j e H. apply in_seq. pose proof (ev_at_lt _ _ _ H). lia. }
+  unfold window_create_removenode. apply existsb_exists. exists ia. split; [eapply S; exact Ha|].
+  unfold ev_at in *. rewrite Ha. apply existsb_exists. exists ir. split; [eapply S; exact Hr|].
+  rewrite Hr. replace (Nat.eqb t1 t2) with false by (symmetry; apply Nat.eqb_neq; exact Hne).
+  rewrite String.eqb_refl. cbn [negb andb]. apply andb_true_iff. split.
+  - apply existsb_exists. exists il. split; [eapply S; exact Hl|]. rewrite Hl.
+    rewrite Nat.eqb_refl, String.eqb_refl. cbn [andb].
+    replace (Nat.ltb il ia) with true by (symmetry; apply Nat.ltb_lt; exact L1).
+    replace (Nat.ltb il ir) with true by (symmetry; apply Nat.ltb_lt; exact L2). reflexivity.
+  - apply existsb_exists. exists ig. split; [eapply S; exact Hg|]. rewrite Hg.
+    rewrite Nat.eqb_refl, String.eqb_refl. cbn [andb].
+    replace (Nat.ltb ig ir) with true by (symmetry; apply Nat.ltb_lt; exact L3).
+    replace (Nat.ltb ig ia) with true by (symmetry; apply Nat.ltb_lt; exact L4). reflexivity.
+Qed.
+
 (* ---------- the invariant ---------- *)
 Definition owns (c : pc) (n : string) : Prop :=
   match c with
@@ -265,6 +398,8 @@ Definition holds (c : pc) (k : string) : Prop :=
   match c with
   | RP_list2 p true | RP_del p true => k = plock p
   | RP_unlock p _ | RN_unlock p _ | RN_get2 _ p | RN_list _ p | RN_setst _ p | RN_rm _ p | RN_delst _ p | RN_prm _ p => k = plock p
+  | CR_cap _ _ p | CR_alloc _ _ p | CR_unlock _ _ p _ | RB_ralloc _ p | RW_getwl2 _ _ p | RW_lockc _ _ p => k = plock p
+  | RW_usage id _ p | RW_rm id _ p | RW_usage2 id _ p | RW_fin id p _ => k = plock p \/ k = clock id
   | _ => False
   end.
 Definition nowl (w : rw) (n : string) : Prop := forall id, ~ In (id, n) (wls w).
@@ -278,12 +413,25 @@ Definition Qa (w : rw) (tr : list ev) (i : nat) (p : string) : Prop :=
 Definition P2 (w : rw) (tr : list ev) (i : nat) (p : string) : Prop :=
   exists ig, ev_at tr ig (i, CGetPod p, true) /\
     (In p (pods w) \/ exists id t2, t2 <> i /\ ig < id /\ ev_at tr id (t2, CDeletePod p, true)).
+(* RemoveNode after its workload list came back empty: still no workload on n, or
+   a create recorded one after my list (having fetched the node before) *)
+Definition NW (w : rw) (tr : list ev) (i : nat) (n : string) : Prop :=
+  exists il okl, ev_at tr il (i, CListNodeWls n, okl) /\
+    (nowl w n \/
+     exists ia t1 id ig, t1 <> i /\ il < ia /\ ev_at tr ia (t1, CAddWl id n, true)
+                         /\ ev_at tr ig (t1, CGetNode n, true) /\ ig < ia).
+(* create about to record its workload: the node it fetched still exists, or a
+   RemoveNode removed it after my fetch *)
+Definition P3 (w : rw) (tr : list ev) (i : nat) (n : string) : Prop :=
+  exists ig, ev_at tr ig (i, CGetNode n, true) /\
+    (In n (node_names w) \/ exists ir t2, t2 <> i /\ ig < ir /\ ev_at tr ir (t2, CRemoveNode n, true)).
 Definition assert (w : rw) (tr : list ev) (i : nat) (c : pc) : Prop :=
   match c with
   | RP_del p _ => Qa w tr i p
   | AN_create _ p => P2 w tr i p
   | RN_list n p => node_pod w n = Some p
-  | RN_setst n p | RN_rm n p => node_pod w n = Some p /\ nowl w n
+  | RN_setst n p | RN_rm n p => node_pod w n = Some p /\ NW w tr i n
+  | CR_addwl n _ => P3 w tr i n
   | _ => True
   end.
 
@@ -306,11 +454,14 @@ Record LockI (w : rw) (pcs : list pc) : Prop := {
 Definition TraceI (tr : list ev) : Prop :=
   forall id t p, ev_at tr id (t, CDeletePod p, true) ->
     exists il okl, il < id /\ ev_at tr il (t, CListPodNodes p, okl).
+Definition TraceR (tr : list ev) : Prop :=
+  forall ir t n, ev_at tr ir (t, CRemoveNode n, true) ->
+    exists il okl, il < ir /\ ev_at tr il (t, CListNodeWls n, okl).
 Definition PcI (w : rw) (pcs : list pc) (tr : list ev) : Prop :=
   forall i c, nth_error pcs i = Some c -> assert w tr i c.
 
 Record Inv (w : rw) (pcs : list pc) (tr : list ev) : Prop := {
-  v_ref : RefI w; v_own : OwnI w pcs; v_lock : LockI w pcs; v_tr : TraceI tr; v_pc : PcI w pcs tr
+  v_ref : RefI w; v_own : OwnI w pcs; v_lock : LockI w pcs; v_tr : TraceI tr; v_tr2 : TraceR tr; v_pc : PcI w pcs tr
 }.
 
 Lemma names_eq : forall w w', nodes w' = nodes w -> node_names w' = node_names w.
@@ -368,6 +519,15 @@ Proof.
   - destruct (Hn t p eq_refl) as [il [okl [L E]]]. exists il, okl. split; [exact L | apply ev_at_ext; exact E].
 Qed.
 
+Lemma TraceR_ext : forall tr e, TraceR tr ->
+  (forall t n, e = (t, CRemoveNode n, true) -> exists il okl, il < List.length tr /\ ev_at tr il (t, CListNodeWls n, okl)) ->
+  TraceR (tr ++ [e]).
+Proof.
+  intros tr e T Hn ir t n H. apply ev_at_app_inv in H. destruct H as [H|[-> <-]].
+  - destruct (T _ _ _ H) as [il [okl [L E]]]. exists il, okl. split; [exact L | apply ev_at_ext; exact E].
+  - destruct (Hn t n eq_refl) as [il [okl [L E]]]. exists il, okl. split; [exact L | apply ev_at_ext; exact E].
+Qed.
+
 Lemma PcI_upd : forall w w' pcs tr tr' i c c', PcI w pcs tr -> nth_error pcs i = Some c ->
   (forall j cj, j <> i -> nth_error pcs j = Some cj -> assert w tr j cj -> assert w' tr' j cj) ->
   assert w' tr' i c' -> PcI w' (set_nth i c' pcs) tr'.
@@ -389,7 +549,25 @@ Proof.
   destruct H as [H|(id & t2 & H1 & H2 & H3)]; [left; exact H | right].
   exists id, t2. repeat split; try apply ev_at_ext; assumption.
 Qed.
-Lemma assert_ext : forall w w' tr x j c, (forall q, In q (pods w) -> In q (pods w')) -> nodes w' = nodes w -> wls w' = wls w ->
+Lemma NW_ext : forall w tr i n x, NW w tr i n -> NW w (tr ++ [x]) i n.
+Proof.
+  intros w tr i n x (il & okl & Hl & H). exists il, okl. split; [apply ev_at_ext; exact Hl|].
+  destruct H as [H|(ia & t1 & id & ig & H1 & H2 & H3 & H4 & H5)]; [left; exact H | right].
+  exists ia, t1, id, ig. repeat split; try apply ev_at_ext; assumption.
+Qed.
+Lemma P3_ext : forall w tr i n x, P3 w tr i n -> P3 w (tr ++ [x]) i n.
+Proof.
+  intros w tr i n x (ig & Hg & H). exists ig. split; [apply ev_at_ext; exact Hg|].
+  destruct H as [H|(ir & t2 & H1 & H2 & H3)]; [left; exact H | right].
+  exists ir, t2. repeat split; try apply ev_at_ext; assumption.
+Qed.
+Lemma NW_world : forall w w' tr i n, (forall x, In x (wls w') -> In x (wls w)) -> NW w tr i n -> NW w' tr i n.
+Proof.
+  intros w w' tr i n Ew (il & okl & Hl & H). exists il, okl. split; [exact Hl|].
+  destruct H as [H|H]; [left; intros id X; exact (H id (Ew _ X)) | right; exact H].
+Qed.
+Lemma assert_ext : forall w w' tr x j c, (forall q, In q (pods w) -> In q (pods w')) -> nodes w' = nodes w ->
+  (forall y, In y (wls w') -> In y (wls w)) ->
   assert w tr j c -> assert w' (tr ++ [x]) j c.
 Proof.
   intros w w' tr x j c Ep En Ew H. destruct c; cbn [assert] in *; try exact I.
@@ -398,8 +576,12 @@ Proof.
   - apply P2_ext. destruct H as (ig & Hg & H). exists ig. split; [exact Hg|].
     destruct H as [H|H]; [left; apply Ep; exact H | right; exact H].
   - unfold node_pod in *. rewrite En. exact H.
-  - unfold node_pod, nowl in *. rewrite En, Ew. exact H.
-  - unfold node_pod, nowl in *. rewrite En, Ew. exact H.
+  - destruct H as [H1 H2]. split; [unfold node_pod in *; rewrite En; exact H1|].
+    apply NW_ext. eapply NW_world; eauto.
+  - destruct H as [H1 H2]. split; [unfold node_pod in *; rewrite En; exact H1|].
+    apply NW_ext. eapply NW_world; eauto.
+  - apply P3_ext. destruct H as (ig & Hg & H). exists ig. split; [exact Hg|].
+    rewrite (names_eq _ _ En). exact H.
 Qed.
 
 Lemma RefI_same : forall w w', RefI w -> pods w' = pods w -> nodes w' = nodes w -> nres w' = nres w -> wls w' = wls w -> RefI w'.
@@ -443,18 +625,22 @@ Qed.
 
 (* a step that leaves the world (up to the pods growing) and the ownership / lock footprint alone *)
 Lemma inv_frame : forall w w' pcs tr i c c' e, Inv w pcs tr -> nth_error pcs i = Some c ->
-  (forall q, In q (pods w) -> In q (pods w')) -> nodes w' = nodes w -> nres w' = nres w -> wls w' = wls w -> held w' = held w ->
+  (forall q, In q (pods w) -> In q (pods w')) -> nodes w' = nodes w -> nres w' = nres w ->
+  (forall y, In y (wls w') -> In y (wls w)) -> held w' = held w ->
   (forall m, owns c' m <-> owns c m) -> (forall m, holds c' m <-> holds c m) ->
   (forall t p, e = (t, CDeletePod p, true) -> exists il okl, il < List.length tr /\ ev_at tr il (t, CListPodNodes p, okl)) ->
+  (forall t n, e = (t, CRemoveNode n, true) -> exists il okl, il < List.length tr /\ ev_at tr il (t, CListNodeWls n, okl)) ->
   assert w' (tr ++ [e]) i c' ->
   Inv w' (set_nth i c' pcs) (tr ++ [e]).
 Proof.
-  intros w w' pcs tr i c c' e [Rf Ow Lk Tr Pc] Hi Ep En Er Ew Eh Hso Hsh Hev Hc. constructor.
-  - destruct Rf as [A B C D]. constructor; rewrite ?(names_eq _ _ En), ?En, ?Er, ?Ew; auto.
-    intros n p H. apply Ep. eapply A. exact H.
+  intros w w' pcs tr i c c' e [Rf Ow Lk Tr Tr2 Pc] Hi Ep En Er Ew Eh Hso Hsh Hev Hev2 Hc. constructor.
+  - destruct Rf as [A B C D]. constructor; rewrite ?(names_eq _ _ En), ?En, ?Er; auto.
+    + intros n p H. apply Ep. eapply A. exact H.
+    + intros id n H. eapply C. apply Ew. exact H.
   - eapply OwnI_same; eauto.
   - eapply LockI_same; eauto.
   - apply TraceI_ext; assumption.
+  - apply TraceR_ext; assumption.
   - eapply PcI_upd; eauto. intros j cj _ _ H. apply (assert_ext w w'); assumption.
 Qed.
 
@@ -465,11 +651,17 @@ Lemma not_delete : forall (tr : list ev) (i : nat) (c : rcall) (b : bool),
   exists il okl, il < List.length tr /\ ev_at tr il (t, CListPodNodes p, okl).
 Proof. intros tr i c b H t p E. inversion E; subst. exfalso. exact (H p eq_refl). Qed.
 
+Lemma not_rmnode : forall (tr : list ev) (i : nat) (c : rcall) (b : bool),
+  (forall n, c <> CRemoveNode n) ->
+  forall (t : nat) n, (i, c, b) = (t, CRemoveNode n, true) ->
+  exists il okl, il < List.length tr /\ ev_at tr il (t, CListNodeWls n, okl).
+Proof. intros tr i c b H t n E. inversion E; subst. exfalso. exact (H n eq_refl). Qed.
+
 (* PAddNode succeeds: the thread becomes the owner of the new resource record *)
 Lemma inv_padd : forall w pcs tr i n p, Inv w pcs tr -> nth_error pcs i = Some (AN_padd n p) -> ~ In n (nres w) ->
   Inv (set_nres w (n :: nres w)) (set_nth i (AN_getpod n p) pcs) (tr ++ [(i, PAddNode n, true)]).
 Proof.
-  intros w pcs tr i n p [Rf Ow Lk Tr Pc] Hi Hn.
+  intros w pcs tr i n p [Rf Ow Lk Tr Tr2 Pc] Hi Hn.
   assert (Nn : ~ In n (node_names w)).
   { intro X. apply in_node_names in X. destruct X as [q X]. apply Hn. eapply (i_res _ Rf); exact X. }
   constructor.
@@ -492,6 +684,7 @@ Proof.
       * eapply (i_own1 _ _ Ow); eauto.
   - eapply LockI_same; eauto. intros m. cbn. tauto.
   - apply TraceI_ext; [exact Tr|]. apply not_delete. intros q. discriminate.
+  - apply TraceR_ext; [exact Tr2|]. apply not_rmnode. intros q. discriminate.
   - eapply PcI_upd; eauto; [|exact I]. intros j cj _ _ H. apply (assert_ext w); auto.
 Qed.
 
@@ -501,7 +694,7 @@ Lemma inv_prm : forall w pcs tr i c c' n, Inv w pcs tr -> nth_error pcs i = Some
   (forall w' tr', assert w' tr' i c') ->
   Inv (set_nres w (rm n (nres w))) (set_nth i c' pcs) (tr ++ [(i, PRemoveNode n, true)]).
 Proof.
-  intros w pcs tr i c c' n [Rf Ow Lk Tr Pc] Hi Hown Hno Hsh Hc.
+  intros w pcs tr i c c' n [Rf Ow Lk Tr Tr2 Pc] Hi Hown Hno Hsh Hc.
   destruct (i_ownf _ _ Ow _ _ _ Hi Hown) as [Nr Nn].
   constructor.
   - destruct Rf as [A B C D]. constructor; cbn; auto. intros m q H. apply in_rm. split; [eapply B; exact H|].
@@ -522,57 +715,62 @@ Proof.
       eapply (i_own1 _ _ Ow); eauto.
   - eapply LockI_same; eauto.
   - apply TraceI_ext; [exact Tr|]. apply not_delete. intros q. discriminate.
+  - apply TraceR_ext; [exact Tr2|]. apply not_rmnode. intros q. discriminate.
   - eapply PcI_upd; eauto. intros j cj _ _ H. apply (assert_ext w); auto.
 Qed.
 
-(* Lock of a free key *)
+(* Lock of a free key (the thread may already hold other keys) *)
 Lemma inv_lock : forall w pcs tr i c c' k, Inv w pcs tr -> nth_error pcs i = Some c -> holder w k = None ->
-  (forall m, ~ holds c m) -> (forall m, holds c' m <-> m = k) -> (forall m, owns c' m <-> owns c m) ->
+  (forall m, holds c' m <-> holds c m \/ m = k) -> (forall m, owns c' m <-> owns c m) ->
   (forall w' tr', assert w' tr' i c') ->
   Inv (set_held w ((k, i) :: held w)) (set_nth i c' pcs) (tr ++ [(i, CLock k, true)]).
 Proof.
-  intros w pcs tr i c c' k [Rf Ow Lk Tr Pc] Hi Hfree Hno Hk Hso Hc. constructor.
+  intros w pcs tr i c c' k [Rf Ow Lk Tr Tr2 Pc] Hi Hfree Hk Hso Hc. constructor.
   - eapply RefI_same; eauto.
   - eapply OwnI_same; eauto.
   - constructor; cbn [held set_held].
     + simpl. constructor; [apply holder_none; exact Hfree | apply (i_hnd _ _ Lk)].
     + intros k' j. split.
       * intros [E|H].
-        -- inversion E; subst. exists c'. split; [eapply nth_set_nth_eq; exact Hi | apply Hk; reflexivity].
-        -- apply (i_held _ _ Lk) in H. destruct H as [cj [Hj Hh]].
-           assert (j <> i) by (intro E; subst j; rewrite Hi in Hj; inversion Hj; subst; exact (Hno _ Hh)).
-           exists cj. split; [rewrite nth_set_nth_neq by congruence; exact Hj | exact Hh].
+        -- inversion E; subst. exists c'. split; [eapply nth_set_nth_eq; exact Hi | apply Hk; right; reflexivity].
+        -- apply (i_held _ _ Lk) in H. destruct H as [cj [Hj Hh]]. destruct (Nat.eq_dec j i) as [E|E].
+           ++ subst j. rewrite Hi in Hj. inversion Hj; subst. exists c'. split; [eapply nth_set_nth_eq; exact Hi | apply Hk; left; exact Hh].
+           ++ exists cj. split; [rewrite nth_set_nth_neq by congruence; exact Hj | exact Hh].
       * intros [cj [Hj Hh]]. destruct (nth_set_nth_cases _ _ _ _ _ _ Hi Hj) as [[-> ->]|[Hne Hold]].
-        -- apply Hk in Hh. subst k'. left. reflexivity.
+        -- apply Hk in Hh. destruct Hh as [Hh|Hh]; [|subst k'; left; reflexivity].
+           right. apply (i_held _ _ Lk). exists c. split; assumption.
         -- right. apply (i_held _ _ Lk). exists cj. split; assumption.
   - apply TraceI_ext; [exact Tr|]. apply not_delete. intros q. discriminate.
+  - apply TraceR_ext; [exact Tr2|]. apply not_rmnode. intros q. discriminate.
   - eapply PcI_upd; eauto. intros j cj _ _ H. apply (assert_ext w); auto.
 Qed.
 
-(* Unlock by the holder *)
+(* Unlock of one of the held keys *)
 Lemma inv_unlock : forall w pcs tr i c c' k, Inv w pcs tr -> nth_error pcs i = Some c ->
-  (forall m, holds c m <-> m = k) -> (forall m, ~ holds c' m) -> (forall m, owns c' m <-> owns c m) ->
+  (forall m, holds c m <-> holds c' m \/ m = k) -> ~ holds c' k -> (forall m, owns c' m <-> owns c m) ->
   (forall w' tr', assert w' tr' i c') ->
   Inv (set_held w (filter (fun x => negb (String.eqb (fst x) k && Nat.eqb (snd x) i)) (held w)))
       (set_nth i c' pcs) (tr ++ [(i, CUnlock k, true)]).
 Proof.
-  intros w pcs tr i c c' k [Rf Ow Lk Tr Pc] Hi Hk Hno Hso Hc. constructor.
+  intros w pcs tr i c c' k [Rf Ow Lk Tr Tr2 Pc] Hi Hk Hno Hso Hc. constructor.
   - eapply RefI_same; eauto.
   - eapply OwnI_same; eauto.
   - constructor; cbn [held set_held].
     + apply NoDup_map_filter. apply (i_hnd _ _ Lk).
     + intros k' j. rewrite filter_In. cbn [fst snd]. split.
-      * intros [H F]. apply (i_held _ _ Lk) in H. destruct H as [cj [Hj Hh]].
-        assert (j <> i).
-        { intro E. subst j. rewrite Hi in Hj. inversion Hj; subst. apply Hk in Hh. subst k'.
-          rewrite String.eqb_refl, Nat.eqb_refl in F. discriminate. }
-        exists cj. split; [rewrite nth_set_nth_neq by congruence; exact Hj | exact Hh].
+      * intros [H F]. apply (i_held _ _ Lk) in H. destruct H as [cj [Hj Hh]]. destruct (Nat.eq_dec j i) as [E|E].
+        -- subst j. rewrite Hi in Hj. inversion Hj; subst. apply Hk in Hh. destruct Hh as [Hh|Hh].
+           ++ exists c'. split; [eapply nth_set_nth_eq; exact Hi | exact Hh].
+           ++ subst k'. rewrite String.eqb_refl, Nat.eqb_refl in F. discriminate.
+        -- exists cj. split; [rewrite nth_set_nth_neq by congruence; exact Hj | exact Hh].
       * intros [cj [Hj Hh]]. destruct (nth_set_nth_cases _ _ _ _ _ _ Hi Hj) as [[-> ->]|[Hne Hold]].
-        -- exfalso. exact (Hno _ Hh).
+        -- split; [apply (i_held _ _ Lk); exists c; split; [exact Hi | apply Hk; left; exact Hh]|].
+           replace (String.eqb k' k) with false; [reflexivity|]. symmetry. apply String.eqb_neq. intro X. subst k'. exact (Hno Hh).
         -- split; [apply (i_held _ _ Lk); exists cj; split; assumption|].
            replace (Nat.eqb j i) with false by (symmetry; apply Nat.eqb_neq; exact Hne).
            rewrite andb_false_r. reflexivity.
   - apply TraceI_ext; [exact Tr|]. apply not_delete. intros q. discriminate.
+  - apply TraceR_ext; [exact Tr2|]. apply not_rmnode. intros q. discriminate.
   - eapply PcI_upd; eauto. intros j cj _ _ H. apply (assert_ext w); auto.
 Qed.
 
@@ -596,7 +794,7 @@ Lemma inv_delpod : forall w pcs tr i p lk c', Inv w pcs tr -> nth_error pcs i = 
   let e := (i, CDeletePod p, true) in
   Ovl (tr ++ [e]) \/ Inv (set_pods w (rm p (pods w))) (set_nth i c' pcs) (tr ++ [e]).
 Proof.
-  intros w pcs tr i p lk c' [Rf Ow Lk Tr Pc] Hi Hno Hsh Hc e.
+  intros w pcs tr i p lk c' [Rf Ow Lk Tr Tr2 Pc] Hi Hno Hsh Hc e.
   pose proof (Pc _ _ Hi) as Q. cbn [assert] in Q. destruct Q as (il & okl & Hl & [Hnn|Hw]).
   - right. constructor.
     + destruct Rf as [A B C D]. constructor; cbn; auto. intros n q H. apply in_rm. split; [eapply A; exact H|].
@@ -604,6 +802,7 @@ Proof.
     + eapply OwnI_same; eauto. intros m. split; [intro X; exfalso; exact (Hno m X) | intro X; cbn in X; contradiction].
     + eapply LockI_same; eauto.
     + apply TraceI_ext; [exact Tr|]. intros t q E. inversion E; subst. exists il, okl. split; [eapply ev_at_lt; exact Hl | exact Hl].
+    + apply TraceR_ext; [exact Tr2|]. apply not_rmnode. intros q. discriminate.
     + eapply PcI_upd; eauto. intros j cj Hne Hj H. destruct cj; cbn [assert] in *; try exact I.
       * apply Qa_ext. exact H.
       * destruct H as (ig & Hg & H). exists ig. split; [apply ev_at_ext; exact Hg|].
@@ -614,8 +813,9 @@ Proof.
            ++ left. cbn. apply in_rm. split; assumption.
            ++ right. exists id, t2. repeat split; try apply ev_at_ext; assumption.
       * exact H.
-      * exact H.
-      * exact H.
+      * destruct H as [H1 H2]. split; [exact H1 | apply NW_ext; exact H2].
+      * destruct H as [H1 H2]. split; [exact H1 | apply NW_ext; exact H2].
+      * apply P3_ext. exact H.
   - left. destruct Hw as (ic & t1 & n & ig & H1 & H2 & H3 & H4 & H5).
     exists ig, ic, (List.length tr), il, t1, i, p, n, okl.
     pose proof (ev_at_lt _ _ _ H3). pose proof (ev_at_lt _ _ _ Hl).
@@ -627,7 +827,7 @@ Lemma inv_create : forall w pcs tr i n p, Inv w pcs tr -> nth_error pcs i = Some
   let e := (i, CCreateNode n p, true) in
   Ovl (tr ++ [e]) \/ Inv (set_nodes w ((n, p) :: nodes w)) (set_nth i (Done true) pcs) (tr ++ [e]).
 Proof.
-  intros w pcs tr i n p [Rf Ow Lk Tr Pc] Hi e.
+  intros w pcs tr i n p [Rf Ow Lk Tr Tr2 Pc] Hi e.
   destruct (i_ownf _ _ Ow _ _ _ Hi eq_refl) as [Nr Nn].
   pose proof (Pc _ _ Hi) as Q. cbn [assert] in Q. destruct Q as (ig & Hg & [Hp|Hw]).
   - right. constructor.
@@ -650,6 +850,7 @@ Proof.
         eapply (i_own1 _ _ Ow); eauto.
     + eapply LockI_same; eauto. intros m. cbn. tauto.
     + apply TraceI_ext; [exact Tr|]. apply not_delete. intros q. discriminate.
+    + apply TraceR_ext; [exact Tr2|]. apply not_rmnode. intros q. discriminate.
     + eapply PcI_upd; eauto; [|exact I]. intros j cj Hne Hj H. destruct cj; cbn [assert] in *; try exact I.
       * destruct H as (il & okl & Hl & H). exists il, okl. split; [apply ev_at_ext; exact Hl|].
         destruct (String.eqb p0 p) eqn:E.
@@ -663,11 +864,13 @@ Proof.
       * assert (n <> n0) by (intro X; subst n0; apply Nn; eapply node_pod_in_names; exact H).
         unfold node_pod in *. cbn. replace (String.eqb n n0) with false by (symmetry; apply String.eqb_neq; assumption). exact H.
       * destruct H as [H Hw]. assert (n <> n0) by (intro X; subst n0; apply Nn; eapply node_pod_in_names; exact H).
-        split; [|exact Hw].
+        split; [|apply NW_ext; eapply NW_world; [|exact Hw]; cbn; auto].
         unfold node_pod in *. cbn. replace (String.eqb n n0) with false by (symmetry; apply String.eqb_neq; assumption). exact H.
       * destruct H as [H Hw]. assert (n <> n0) by (intro X; subst n0; apply Nn; eapply node_pod_in_names; exact H).
-        split; [|exact Hw].
+        split; [|apply NW_ext; eapply NW_world; [|exact Hw]; cbn; auto].
         unfold node_pod in *. cbn. replace (String.eqb n n0) with false by (symmetry; apply String.eqb_neq; assumption). exact H.
+      * apply P3_ext. destruct H as (ig0 & Hg0 & H). exists ig0. split; [exact Hg0|].
+        destruct H as [H|H]; [left; unfold node_names; cbn; right; exact H | right; exact H].
   - left. destruct Hw as (id & t2 & H1 & H2 & H3). destruct (Tr _ _ _ H3) as (il & okl & L & Hl).
     exists ig, (List.length tr), id, il, i, t2, p, n, okl.
     pose proof (ev_at_lt _ _ _ H3). pose proof (ev_at_lt _ _ _ Hg).
@@ -676,11 +879,17 @@ Qed.
 
 (* RemoveNode's store removal, under the pod lock, after the checks *)
 Lemma inv_rmnode : forall w pcs tr i n p, Inv w pcs tr -> nth_error pcs i = Some (RN_rm n p) ->
+  Ovl2 (tr ++ [(i, CRemoveNode n, true)]) \/
   Inv (set_nodes w (filter (fun x => negb (String.eqb (fst x) n)) (nodes w))) (set_nth i (RN_delst n p) pcs)
       (tr ++ [(i, CRemoveNode n, true)]).
 Proof.
-  intros w pcs tr i n p [Rf Ow Lk Tr Pc] Hi.
-  pose proof (Pc _ _ Hi) as Q. cbn [assert] in Q. destruct Q as [Hnp Hnw].
+  intros w pcs tr i n p [Rf Ow Lk Tr Tr2 Pc] Hi.
+  pose proof (Pc _ _ Hi) as Q. cbn [assert] in Q. destruct Q as [Hnp (il & okl & Hl & [Hnw|Hev])].
+  2:{ left. destruct Hev as (ia & t1 & id & ig & H1 & H2 & H3 & H4 & H5).
+      exists ia, (List.length tr), il, ig, t1, i, n, id, okl.
+      pose proof (ev_at_lt _ _ _ H3). pose proof (ev_at_lt _ _ _ Hl).
+      repeat split; try (apply ev_at_ext; assumption); try lia; try assumption. apply ev_at_last. }
+  right.
   pose proof (node_pod_spec _ _ _ Hnp) as Hin.
   assert (Names : forall m, In m (node_names (set_nodes w (filter (fun x => negb (String.eqb (fst x) n)) (nodes w))))
                   <-> In m (node_names w) /\ m <> n).
@@ -716,11 +925,12 @@ Proof.
       * eapply (i_own1 _ _ Ow); eauto.
   - eapply LockI_same; eauto. intros m. cbn. tauto.
   - apply TraceI_ext; [exact Tr|]. apply not_delete. intros q. discriminate.
+  - apply TraceR_ext; [exact Tr2|]. intros t q E. inversion E; subst. exists il, okl. split; [eapply ev_at_lt; exact Hl | exact Hl].
   - assert (Other : forall j m q cj, j <> i -> nth_error pcs j = Some cj -> holds cj (plock q) -> node_pod w m = Some q -> m <> n).
     { intros j m q cj Hne Hj Hh Hm X. subst m. rewrite Hnp in Hm. inversion Hm; subst q.
       apply Hne. eapply (mutex w pcs j i); eauto. reflexivity. }
     eapply PcI_upd; eauto; [|exact I]. intros j cj Hne Hj H. destruct cj; cbn [assert] in *; try exact I.
-    + destruct H as (il & okl & Hl & H). exists il, okl. split; [apply ev_at_ext; exact Hl|].
+    + destruct H as (il0 & okl0 & Hl0 & H). exists il0, okl0. split; [apply ev_at_ext; exact Hl0|].
       destruct H as [H|(ic & t1 & n1 & ig1 & H1 & H2 & H3 & H4 & H5)].
       * left. intros m X. cbn in X. apply filter_In in X. exact (H m (proj1 X)).
       * right. exists ic, t1, n1, ig1. repeat split; try apply ev_at_ext; assumption.
@@ -728,19 +938,76 @@ Proof.
     + assert (n0 <> n) by (eapply (Other j n0 p0); eauto; reflexivity).
       unfold node_pod in *. cbn. rewrite find_filter_other by assumption. exact H.
     + destruct H as [H Hw]. assert (n0 <> n) by (eapply (Other j n0 p0); eauto; reflexivity).
-      split; [|exact Hw]. unfold node_pod in *. cbn. rewrite find_filter_other by assumption. exact H.
+      split; [|apply NW_ext; eapply NW_world; [|exact Hw]; cbn; auto]. unfold node_pod in *. cbn. rewrite find_filter_other by assumption. exact H.
     + destruct H as [H Hw]. assert (n0 <> n) by (eapply (Other j n0 p0); eauto; reflexivity).
-      split; [|exact Hw]. unfold node_pod in *. cbn. rewrite find_filter_other by assumption. exact H.
+      split; [|apply NW_ext; eapply NW_world; [|exact Hw]; cbn; auto]. unfold node_pod in *. cbn. rewrite find_filter_other by assumption. exact H.
+    + destruct H as (ig0 & Hg0 & H). exists ig0. split; [apply ev_at_ext; exact Hg0|].
+      destruct (String.eqb n0 n) eqn:E.
+      * apply String.eqb_eq in E. subst n0. right. exists (List.length tr), i. split; [congruence|].
+        split; [eapply ev_at_lt; exact Hg0 | apply ev_at_last].
+      * apply String.eqb_neq in E. destruct H as [H|(ir & t2 & H1 & H2 & H3)].
+        -- left. apply Names. split; assumption.
+        -- right. exists ir, t2. repeat split; try apply ev_at_ext; assumption.
 Qed.
+
+(* create records its workload *)
+Lemma inv_addwl : forall w pcs tr i n id, Inv w pcs tr -> nth_error pcs i = Some (CR_addwl n id) ->
+  let e := (i, CAddWl id n, true) in
+  Ovl2 (tr ++ [e]) \/
+  Inv (set_wls w ((id, n) :: filter (fun x => negb (String.eqb (fst x) id)) (wls w))) (set_nth i (Done true) pcs) (tr ++ [e]).
+Proof.
+  intros w pcs tr i n id [Rf Ow Lk Tr Tr2 Pc] Hi e.
+  pose proof (Pc _ _ Hi) as Q. cbn [assert] in Q. destruct Q as (ig & Hg & [Hin|Hw]).
+  - right. constructor.
+    + destruct Rf as [A B C D]. constructor; cbn [pods nodes nres wls set_wls]; auto.
+      intros x m [E|H]; [inversion E; subst; exact Hin | apply filter_In in H; eapply C; exact (proj1 H)].
+    + eapply OwnI_same; eauto. intros m. cbn. tauto.
+    + eapply LockI_same; eauto. intros m. cbn. tauto.
+    + apply TraceI_ext; [exact Tr|]. apply not_delete. intros q. discriminate.
+    + apply TraceR_ext; [exact Tr2|]. apply not_rmnode. intros q. discriminate.
+    + eapply PcI_upd; eauto; [|exact I]. intros j cj Hne Hj H. destruct cj; cbn [assert] in *; try exact I.
+      * apply Qa_ext. exact H.
+      * apply P2_ext. exact H.
+      * exact H.
+      * destruct H as [H1 (il & okl & Hl & H2)]. split; [exact H1|]. exists il, okl. split; [apply ev_at_ext; exact Hl|].
+        destruct (String.eqb n0 n) eqn:E.
+        -- apply String.eqb_eq in E. subst n0. right. exists (List.length tr), i, id, ig.
+           split; [congruence|]. split; [eapply ev_at_lt; exact Hl|]. split; [apply ev_at_last|].
+           split; [apply ev_at_ext; exact Hg | eapply ev_at_lt; exact Hg].
+        -- apply String.eqb_neq in E. destruct H2 as [H2|(ia & t1 & id1 & ig1 & X1 & X2 & X3 & X4 & X5)].
+           ++ left. intros x [Y|Y]; [inversion Y; subst; congruence | apply filter_In in Y; exact (H2 x (proj1 Y))].
+           ++ right. exists ia, t1, id1, ig1. repeat split; try apply ev_at_ext; assumption.
+      * destruct H as [H1 (il & okl & Hl & H2)]. split; [exact H1|]. exists il, okl. split; [apply ev_at_ext; exact Hl|].
+        destruct (String.eqb n0 n) eqn:E.
+        -- apply String.eqb_eq in E. subst n0. right. exists (List.length tr), i, id, ig.
+           split; [congruence|]. split; [eapply ev_at_lt; exact Hl|]. split; [apply ev_at_last|].
+           split; [apply ev_at_ext; exact Hg | eapply ev_at_lt; exact Hg].
+        -- apply String.eqb_neq in E. destruct H2 as [H2|(ia & t1 & id1 & ig1 & X1 & X2 & X3 & X4 & X5)].
+           ++ left. intros x [Y|Y]; [inversion Y; subst; congruence | apply filter_In in Y; exact (H2 x (proj1 Y))].
+           ++ right. exists ia, t1, id1, ig1. repeat split; try apply ev_at_ext; assumption.
+      * apply P3_ext. exact H.
+  - left. destruct Hw as (ir & t2 & H1 & H2 & H3). destruct (Tr2 _ _ _ H3) as (il & okl & L & Hl).
+    exists (List.length tr), ir, il, ig, i, t2, n, id, okl.
+    pose proof (ev_at_lt _ _ _ H3). pose proof (ev_at_lt _ _ _ Hg).
+    repeat split; try (apply ev_at_ext; assumption); try lia; try congruence. apply ev_at_last.
+Qed.
+
+Lemma plock_clock : forall p id, plock p <> clock id.
+Proof. intros p id H. unfold plock, clock in H. cbn in H. discriminate. Qed.
 
 (* ---------- every step preserves "window or invariant" ---------- *)
 Ltac frame c0 :=
-  right; eapply (inv_frame _ _ _ _ _ c0);
-  [ eassumption | eassumption | intros ? ?; cbn; auto | reflexivity | reflexivity | reflexivity | reflexivity
-  | intros ?; cbn; tauto | intros ?; cbn; tauto | intros ? ? X; inversion X | cbn [assert]; try exact I ].
+  right; right; eapply (inv_frame _ _ _ _ _ c0);
+  [ eassumption | eassumption | intros ? ?; cbn; auto | reflexivity | reflexivity
+  | intros ? Hy; cbn in Hy; try (apply filter_In in Hy; destruct Hy as [Hy _]); exact Hy
+  | reflexivity
+  | intros ?; cbn; tauto | intros ?; cbn; tauto | intros ? ? X; inversion X | intros ? ? X; inversion X
+  | cbn [assert]; try exact I ].
+Ltac lift1 := let X := fresh in intros X; destruct X as [X|X]; [left; exact X | right; right; exact X].
+Ltac lift2 := let X := fresh in intros X; destruct X as [X|X]; [right; left; exact X | right; right; exact X].
 
 Lemma inv_astep : forall w pcs tr i c w' c' e, Inv w pcs tr -> nth_error pcs i = Some c ->
-  astep w i c = Some (w', c', e) -> Ovl (tr ++ [e]) \/ Inv w' (set_nth i c' pcs) (tr ++ [e]).
+  astep w i c = Some (w', c', e) -> Ovl (tr ++ [e]) \/ Ovl2 (tr ++ [e]) \/ Inv w' (set_nth i c' pcs) (tr ++ [e]).
 Proof.
   intros w pcs tr i c w' c' e V Hi H. unfold astep in H.
   destruct c; cbn [call_of exec] in H; try discriminate.
@@ -752,7 +1019,7 @@ Proof.
     inversion H; subst w' c' e; clear H. cbn [next r_ok r_strs negb].
     destruct (is_nil _); frame (RP_list1 p).
   - (* RemovePod: lock *)
-    destruct (holder w (plock p)) eqn:Hh; [discriminate|]. inversion H; subst w' c' e; clear H. right.
+    destruct (holder w (plock p)) eqn:Hh; [discriminate|]. inversion H; subst w' c' e; clear H. right; right.
     apply (inv_lock w pcs tr i (RP_lock p)); auto; try (intros m; cbn; tauto); try (intros; exact I).
   - (* RemovePod: second list *)
     inversion H; subst w' c' e; clear H. cbn [next r_ok r_strs andb].
@@ -762,15 +1029,19 @@ Proof.
     + destruct lk; frame (RP_list2 p true) || frame (RP_list2 p false).
   - (* RemovePod: delete *)
     destruct (mem p (pods w)) eqn:E; inversion H; subst w' c' e; clear H; cbn [next r_ok yes no].
-    + destruct lk; apply (inv_delpod w pcs tr i p _ _ V Hi); try (intros m; cbn; tauto); try (intros; exact I).
+    + destruct lk.
+      * destruct (inv_delpod w pcs tr i p true (RP_unlock p true) V Hi) as [X|X];
+          [intros m; cbn; tauto | intros m; cbn; tauto | intros; exact I | left; exact X | right; right; exact X].
+      * destruct (inv_delpod w pcs tr i p false (Done true) V Hi) as [X|X];
+          [intros m; cbn; tauto | intros m; cbn; tauto | intros; exact I | left; exact X | right; right; exact X].
     + destruct lk; frame (RP_del p true) || frame (RP_del p false).
   - (* RemovePod: unlock *)
-    inversion H; subst w' c' e; clear H. right.
+    inversion H; subst w' c' e; clear H. right; right.
     apply (inv_unlock w pcs tr i (RP_unlock p b)); auto; try (intros m; cbn; tauto); try (intros; exact I).
   - (* AddNode: plugin add *)
     destruct (mem n (nres w)) eqn:E; inversion H; subst w' c' e; clear H; cbn [next r_ok yes no negb].
     + frame (AN_padd n p).
-    + right. apply inv_padd; auto. apply mem_false. exact E.
+    + right; right. apply inv_padd; auto. apply mem_false. exact E.
   - (* AddNode: GetPod *)
     destruct (mem p (pods w)) eqn:E; inversion H; subst w' c' e; clear H; cbn [next r_ok yes no negb].
     + frame (AN_getpod n p). exists (List.length tr). split; [apply ev_at_last | left; apply mem_In; exact E].
@@ -778,17 +1049,17 @@ Proof.
   - (* AddNode: create *)
     destruct (i_ownf _ _ (v_own _ _ _ V) _ _ _ Hi eq_refl) as [_ Nn].
     apply mem_false in Nn. rewrite Nn in H. inversion H; subst w' c' e; clear H. cbn [next r_ok yes].
-    apply inv_create; assumption.
+    generalize (inv_create w pcs tr i n p V Hi). cbv zeta. lift1.
   - (* AddNode: rollback *)
     destruct (i_ownf _ _ (v_own _ _ _ V) _ _ _ Hi eq_refl) as [Nr _].
-    apply mem_In in Nr. rewrite Nr in H. inversion H; subst w' c' e; clear H. cbn [next]. right.
+    apply mem_In in Nr. rewrite Nr in H. inversion H; subst w' c' e; clear H. cbn [next]. right; right.
     apply (inv_prm w pcs tr i (AN_rollback n)); auto; try (intros m; cbn; tauto); try reflexivity; try (intros; exact I).
   - (* RemoveNode: first GetNode *)
     destruct (node_pod w n) eqn:E; inversion H; subst w' c' e; clear H; cbn [next r_ok r_strs hd_str no negb].
     + frame (RN_get1 n).
     + frame (RN_get1 n).
   - (* RemoveNode: lock *)
-    destruct (holder w (plock p)) eqn:Hh; [discriminate|]. inversion H; subst w' c' e; clear H. right.
+    destruct (holder w (plock p)) eqn:Hh; [discriminate|]. inversion H; subst w' c' e; clear H. right; right.
     apply (inv_lock w pcs tr i (RN_lock n p)); auto; try (intros m; cbn; tauto); try (intros; exact I).
   - (* RemoveNode: second GetNode *)
     destruct (node_pod w n) as [q|] eqn:E; inversion H; subst w' c' e; clear H; cbn [next r_ok r_strs hd_str no negb andb].
@@ -800,27 +1071,88 @@ Proof.
     pose proof (v_pc _ _ _ V _ _ Hi) as Q. cbn [assert] in Q.
     destruct (map fst (filter (fun x => String.eqb (snd x) n) (wls w))) eqn:El.
     + inversion H; subst w' c' e; clear H. cbn [next r_ok r_strs andb is_nil].
-      frame (RN_list n p). split; [exact Q | exact (list_node_wls_nil w n El)].
+      frame (RN_list n p). split; [exact Q|]. exists (List.length tr), true. split; [apply ev_at_last|]. left.
+      exact (list_node_wls_nil w n El).
     + destruct (mem n (node_names w)); inversion H; subst w' c' e; clear H; cbn [next r_ok r_strs no andb is_nil];
         frame (RN_list n p).
   - (* RemoveNode: status set (result ignored) *)
     pose proof (v_pc _ _ _ V _ _ Hi) as Q. cbn [assert] in Q.
-    inversion H; subst w' c' e; clear H. cbn [next]. frame (RN_setst n p). exact Q.
+    inversion H; subst w' c' e; clear H. cbn [next]. frame (RN_setst n p).
+    destruct Q as [Q1 Q2]. split; [exact Q1 | apply NW_ext; exact Q2].
   - (* RemoveNode: store removal *)
-    inversion H; subst w' c' e; clear H. cbn [next r_ok yes negb]. right. apply inv_rmnode; assumption.
+    inversion H; subst w' c' e; clear H. cbn [next r_ok yes negb].
+    generalize (inv_rmnode w pcs tr i n p V Hi). lift2.
   - (* RemoveNode: status delete (result ignored) *)
     inversion H; subst w' c' e; clear H. cbn [next]. frame (RN_delst n p).
   - (* RemoveNode: plugin removal *)
     destruct (i_ownf _ _ (v_own _ _ _ V) _ _ _ Hi eq_refl) as [Nr _].
-    apply mem_In in Nr. rewrite Nr in H. inversion H; subst w' c' e; clear H. cbn [next r_ok yes]. right.
+    apply mem_In in Nr. rewrite Nr in H. inversion H; subst w' c' e; clear H. cbn [next r_ok yes]. right; right.
     apply (inv_prm w pcs tr i (RN_prm n p)); auto; try (intros m; cbn; tauto); try reflexivity; try (intros; exact I).
-  - (* RemoveNode: unlock *)
-    inversion H; subst w' c' e; clear H. right.
+  - (* RemoveNode / create / remove: unlock of the pod lock *)
+    inversion H; subst w' c' e; clear H. right; right.
     apply (inv_unlock w pcs tr i (RN_unlock p b)); auto; try (intros m; cbn; tauto); try (intros; exact I).
+  - (* create: GetNode *)
+    destruct (node_pod w n) eqn:E; inversion H; subst w' c' e; clear H; cbn [next r_ok r_strs hd_str no negb].
+    + frame (CR_get1 n id).
+    + frame (CR_get1 n id).
+  - (* create: lock *)
+    destruct (holder w (plock p)) eqn:Hh; [discriminate|]. inversion H; subst w' c' e; clear H. right; right.
+    apply (inv_lock w pcs tr i (CR_lock n id p)); auto; try (intros m; cbn; tauto); try (intros; exact I).
+  - (* create: capacity *)
+    destruct (mem n (nres w)); inversion H; subst w' c' e; clear H; cbn [next r_ok yes no negb]; frame (CR_cap n id p).
+  - (* create: alloc *)
+    destruct (mem n (nres w)); inversion H; subst w' c' e; clear H; cbn [next r_ok yes no]; frame (CR_alloc n id p).
+  - (* create: unlock *)
+    inversion H; subst w' c' e; clear H. right; right. cbn [next].
+    apply (inv_unlock w pcs tr i (CR_unlock n id p b)); auto; destruct b; cbn [negb]; try (intros m; cbn; tauto); try (intros; exact I).
+  - (* create: second GetNode *)
+    destruct (node_pod w n) eqn:E; inversion H; subst w' c' e; clear H; cbn [next r_ok r_strs hd_str no negb].
+    + frame (CR_get2 n id). exists (List.length tr). split; [apply ev_at_last | left; eapply node_pod_in_names; exact E].
+    + frame (CR_get2 n id).
+  - (* create: record the workload *)
+    inversion H; subst w' c' e; clear H. cbn [next r_ok yes].
+    generalize (inv_addwl w pcs tr i n id V Hi). cbv zeta. lift2.
+  - (* create: remove the record again (unreachable without failures) *)
+    inversion H; subst w' c' e; clear H. cbn [next]. frame (CR_rmwl n id).
+  - (* rollback: GetNode *)
+    destruct (node_pod w n) eqn:E; inversion H; subst w' c' e; clear H; cbn [next r_ok r_strs hd_str no negb].
+    + frame (RB_get n).
+    + frame (RB_get n).
+  - (* rollback: lock *)
+    destruct (holder w (plock p)) eqn:Hh; [discriminate|]. inversion H; subst w' c' e; clear H. right; right.
+    apply (inv_lock w pcs tr i (RB_lock n p)); auto; try (intros m; cbn; tauto); try (intros; exact I).
+  - (* rollback: give the allocation back *)
+    destruct (mem n (nres w)); inversion H; subst w' c' e; clear H; cbn [next]; frame (RB_ralloc n p).
+  - (* remove: GetWorkload *)
+    destruct (wl_node w id) as [m|]; [destruct (mem m (node_names w))|]; inversion H; subst w' c' e; clear H;
+      cbn [next r_ok r_strs hd_str no negb]; frame (RW_getwl1 id).
+  - (* remove: GetNode *)
+    destruct (node_pod w n) eqn:E; inversion H; subst w' c' e; clear H; cbn [next r_ok r_strs hd_str no negb].
+    + frame (RW_getnode id n).
+    + frame (RW_getnode id n).
+  - (* remove: pod lock *)
+    destruct (holder w (plock p)) eqn:Hh; [discriminate|]. inversion H; subst w' c' e; clear H. right; right.
+    apply (inv_lock w pcs tr i (RW_lockp id n p)); auto; try (intros m; cbn; tauto); try (intros; exact I).
+  - (* remove: GetWorkload under the lock *)
+    destruct (wl_node w id) as [m|]; [destruct (mem m (node_names w))|]; inversion H; subst w' c' e; clear H;
+      cbn [next r_ok r_strs no negb]; frame (RW_getwl2 id n p).
+  - (* remove: workload lock *)
+    destruct (holder w (clock id)) eqn:Hh; [discriminate|]. inversion H; subst w' c' e; clear H. right; right.
+    apply (inv_lock w pcs tr i (RW_lockc id n p)); auto; try (intros m; cbn; tauto); try (intros; exact I).
+  - (* remove: usage *)
+    destruct (mem n (nres w)); inversion H; subst w' c' e; clear H; cbn [next r_ok yes no negb]; frame (RW_usage id n p).
+  - (* remove: record removed *)
+    inversion H; subst w' c' e; clear H. cbn [next r_ok yes]. frame (RW_rm id n p).
+  - (* remove: usage restored (unreachable without failures) *)
+    destruct (mem n (nres w)); inversion H; subst w' c' e; clear H; cbn [next]; frame (RW_usage2 id n p).
+  - (* remove: unlock the workload lock *)
+    inversion H; subst w' c' e; clear H. right; right. cbn [next].
+    apply (inv_unlock w pcs tr i (RW_fin id p b)); auto; try (intros m; cbn; tauto); try (intros; exact I).
+    intro X. cbn in X. discriminate X.
 Qed.
 
 (* ---------- from the initial world to every reachable state ---------- *)
-Definition J (w : rw) (pcs : list pc) (tr : list ev) : Prop := Ovl tr \/ Inv w pcs tr.
+Definition J (w : rw) (pcs : list pc) (tr : list ev) : Prop := Ovl tr \/ Ovl2 tr \/ Inv w pcs tr.
 
 Lemma pc0_owns : forall o n, ~ owns (pc0 o) n.
 Proof. destruct o; cbn; tauto. Qed.
@@ -845,6 +1177,7 @@ Proof.
     + intros k i. rewrite Hh. split; [intros []|]. intros [c [Hi Ho]]. destruct (nth_map_pc0 _ _ _ Hi) as [o ->].
       exact (pc0_holds o k Ho).
   - intros id t p H. unfold ev_at in H. destruct id; discriminate.
+  - intros ir t n H. unfold ev_at in H. destruct ir; discriminate.
   - intros i c Hi. destruct (nth_map_pc0 _ _ _ Hi) as [o ->]. destruct o; exact I.
 Qed.
 
@@ -865,7 +1198,7 @@ Proof.
     destruct (step_thread w i t) as [[[w1 t1] e]|]; [|eapply IH; eauto].
     destruct S as [c1 [Ha R1]].
     eapply (IH w1 (set_nth i t1 ts) (e :: acc) (set_nth i c1 pcs)); [apply Forall2_set_nth; assumption | | exact H].
-    cbn [rev]. destruct Hj as [Hw|Hv]; [left; apply Ovl_ext; exact Hw|].
+    cbn [rev]. destruct Hj as [Hw|[Hw|Hv]]; [left; apply Ovl_ext; exact Hw | right; left; apply Ovl2_ext; exact Hw|].
     exact (inv_astep _ _ _ _ _ _ _ _ Hv Hc Ha).
 Qed.
 
@@ -892,38 +1225,40 @@ Proof.
 Qed.
 
 (* THE GENERAL THEOREM: any world with Ref (distinct node names, no lock held),
-   any number of AddPod / RemovePod / AddNode / RemoveNode operations with any
-   names, any schedule: when all operations have finished, Ref holds or the
-   trace contains the AddNode/RemovePod overlap. *)
-Theorem podnode_general : forall w ops sched w' ts' tr,
+   any number of AddPod / RemovePod / AddNode / RemoveNode / create / remove
+   operations with any names, any schedule: when all operations have finished,
+   Ref holds or the trace contains one of the two check-then-act overlaps. *)
+Theorem general_quiescent : forall w ops sched w' ts' tr,
   ref_ok w = true -> NoDup (node_names w) -> held w = [] ->
   run_sched w (mk_threads (map (fun o => (rop_of o, None)) ops)) sched [] = (w', ts', tr) ->
   forallb finished ts' = true ->
-  ref_ok w' = true \/ window_addnode_removepod tr = true.
+  ref_ok w' = true \/ window_addnode_removepod tr = true \/ window_create_removenode tr = true.
 Proof.
   intros w ops sched w' ts' tr Hr Hnd Hh Hrun Hfin.
   destruct (run_sched_J sched w _ [] (map pc0 ops) w' ts' tr (threads_R ops)
-              (or_intror (inv_init w ops Hr Hnd Hh)) Hrun) as [pcs' [F [Hw|Hv]]].
-  - right. apply Ovl_window. exact Hw.
+              (or_intror (or_intror (inv_init w ops Hr Hnd Hh))) Hrun) as [pcs' [F [Hw|[Hw|Hv]]]].
+  - right. left. apply Ovl_window. exact Hw.
+  - right. right. apply Ovl2_window. exact Hw.
   - left. eapply inv_quiescent; [exact Hv|]. eapply finished_done; eauto.
 Qed.
 
 (* ... and at EVERY reachable state, finished or not: every node's pod exists,
-   every node has its resource record, every workload's node exists - or the
-   overlap has happened. *)
-Theorem podnode_always : forall w ops sched w' ts' tr,
+   every node has its resource record, every workload's node exists - or one
+   of the overlaps has happened. *)
+Theorem general_always : forall w ops sched w' ts' tr,
   ref_ok w = true -> NoDup (node_names w) -> held w = [] ->
   run_sched w (mk_threads (map (fun o => (rop_of o, None)) ops)) sched [] = (w', ts', tr) ->
-  window_addnode_removepod tr = true \/
+  window_addnode_removepod tr = true \/ window_create_removenode tr = true \/
   ((forall n p, In (n, p) (nodes w') -> In p (pods w')) /\
    (forall n p, In (n, p) (nodes w') -> In n (nres w')) /\
    (forall id n, In (id, n) (wls w') -> In n (node_names w'))).
 Proof.
   intros w ops sched w' ts' tr Hr Hnd Hh Hrun.
   destruct (run_sched_J sched w _ [] (map pc0 ops) w' ts' tr (threads_R ops)
-              (or_intror (inv_init w ops Hr Hnd Hh)) Hrun) as [pcs' [F [Hw|Hv]]].
+              (or_intror (or_intror (inv_init w ops Hr Hnd Hh))) Hrun) as [pcs' [F [Hw|[Hw|Hv]]]].
   - left. apply Ovl_window. exact Hw.
-  - right. destruct Hv as [[A B C D] _ _ _ _]. repeat split; assumption.
+  - right. left. apply Ovl2_window. exact Hw.
+  - right. right. destruct Hv as [[A B C D] _ _ _ _ _]. repeat split; assumption.
 Qed.
 
 (* ---------- no deadlock, in general ---------- *)
@@ -936,10 +1271,17 @@ Proof.
 Qed.
 Lemma exec_total : forall w i c, (forall k, c <> CLock k) -> exec w i c <> None.
 Proof. intros w i c H. destruct c; cbn; try discriminate. exfalso. exact (H k eq_refl). Qed.
-Lemma holder_lock_free : forall c k, holds c k -> exists call, call_of c = Some call /\ forall k', call <> CLock k'.
+Lemma clock_holder_free : forall c id, holds c (clock id) -> exists call, call_of c = Some call /\ forall k', call <> CLock k'.
 Proof.
-  destruct c; cbn; intros k H; try contradiction; try (destruct lk; [|contradiction]);
+  destruct c; cbn; intros id0 H; try contradiction; try (destruct lk; [|contradiction]);
+    try (exfalso; discriminate H);
     eexists; (split; [reflexivity | intros k'; discriminate]).
+Qed.
+(* a thread that holds a key and asks for another one asks for a workload lock *)
+Lemma holder_asks_clock : forall c k k2, holds c k -> call_of c = Some (CLock k2) -> exists id, k2 = clock id.
+Proof.
+  destruct c; cbn; intros k k2 H E; try contradiction; try (destruct lk; [|contradiction]); try discriminate E.
+  inversion E. eexists. reflexivity.
 Qed.
 Lemma enabled_in : forall w ts i t s, nth_error ts i = Some t -> step_thread w i t = Some s -> enabled_steps w ts <> [].
 Proof.
@@ -958,6 +1300,26 @@ Proof.
   eapply enabled_in; eauto.
 Qed.
 
+Lemma waiting_on : forall w i c, astep w i c = None -> (exists b, c = Done b) \/
+  exists k h, call_of c = Some (CLock k) /\ In (k, h) (held w).
+Proof.
+  intros w i c Ea. unfold astep in Ea. destruct (call_of c) as [call|] eqn:Ec.
+  - right. destruct (exec w i call) as [[w1 r]|] eqn:Ee; [discriminate|].
+    assert (L : exists k, call = CLock k).
+    { destruct call; cbn in Ee; try discriminate. exists k. reflexivity. }
+    destruct L as [k ->]. cbn in Ee. destruct (holder w k) as [j|] eqn:Hh; [|discriminate].
+    unfold holder in Hh. destruct (find (fun x => String.eqb (fst x) k) (held w)) as [[k' j']|] eqn:Hfind; [|discriminate].
+    apply find_some in Hfind. destruct Hfind as [Hin Hk]. cbn in Hk. apply String.eqb_eq in Hk. subst k'.
+    exists k, j'. split; [reflexivity | exact Hin].
+  - left. destruct c; cbn in Ec; try discriminate. eexists. reflexivity.
+Qed.
+
+Lemma free_call_steps : forall w j c call, call_of c = Some call -> (forall k', call <> CLock k') -> astep w j c <> None.
+Proof.
+  intros w j c call Hc Hn. unfold astep. rewrite Hc. pose proof (exec_total w j call Hn) as T.
+  destruct (exec w j call) as [[w2 r2]|]; [discriminate | contradiction].
+Qed.
+
 Lemma inv_progress : forall w ts pcs tr, Forall2 R ts pcs -> Inv w pcs tr ->
   forallb finished ts = true \/ enabled_steps w ts <> [].
 Proof.
@@ -968,32 +1330,30 @@ Proof.
     - exists 0, t. split; [reflexivity | exact E]. }
   destruct X as [i [t [Ht Hf]]]. destruct (Forall2_nth _ _ _ _ _ F Ht) as [c [Hc [Hp _]]].
   destruct (astep w i c) as [s|] eqn:Ea; [eapply astep_enabled; eauto; congruence|].
-  (* the thread waits for a lock; its holder can move *)
-  unfold astep in Ea. destruct (call_of c) as [call|] eqn:Ec.
-  - destruct (exec w i call) as [[w1 r]|] eqn:Ee; [discriminate|].
-    assert (L : exists k, call = CLock k).
-    { destruct call; cbn in Ee; try discriminate. exists k. reflexivity. }
-    destruct L as [k ->]. cbn in Ee. destruct (holder w k) as [j|] eqn:Hh; [|discriminate].
-    unfold holder in Hh. destruct (find (fun x => String.eqb (fst x) k) (held w)) as [[k' j']|] eqn:Hfind; [|discriminate].
-    cbn in Hh. inversion Hh; subst j'. apply find_some in Hfind. destruct Hfind as [Hin Hk]. cbn in Hk.
-    apply String.eqb_eq in Hk. subst k'.
-    apply (i_held _ _ (v_lock _ _ _ V)) in Hin. destruct Hin as [cj [Hj Hh2]].
-    destruct (holder_lock_free _ _ Hh2) as [cl [Hcl Hnl]].
-    eapply (astep_enabled w ts pcs j cj); eauto. unfold astep. rewrite Hcl.
-    pose proof (exec_total w j cl Hnl) as T. destruct (exec w j cl) as [[w2 r2]|]; [discriminate | contradiction].
-  - exfalso. destruct c; cbn in Ec; try discriminate. unfold finished in Hf. rewrite Hp in Hf. cbn in Hf. discriminate.
+  destruct (waiting_on _ _ _ Ea) as [[b0 ->]|(k & j & Hcall & Hin)].
+  { exfalso. unfold finished in Hf. rewrite Hp in Hf. cbn in Hf. discriminate. }
+  (* the thread waits for k; its holder j moves, or waits for a workload lock whose holder moves *)
+  apply (i_held _ _ (v_lock _ _ _ V)) in Hin. destruct Hin as [cj [Hj Hh]].
+  destruct (astep w j cj) as [s|] eqn:Eb; [eapply (astep_enabled w ts pcs j cj); eauto; congruence|].
+  destruct (waiting_on _ _ _ Eb) as [[b0 ->]|(k2 & h & Hcall2 & Hin2)]; [cbn in Hh; contradiction|].
+  destruct (holder_asks_clock _ _ _ Hh Hcall2) as [id ->].
+  apply (i_held _ _ (v_lock _ _ _ V)) in Hin2. destruct Hin2 as [ch [Hhn Hhh]].
+  destruct (clock_holder_free _ _ Hhh) as [cl [Hcl Hnl]].
+  eapply (astep_enabled w ts pcs h ch); eauto. eapply free_call_steps; eauto.
 Qed.
 
-(* no reachable state is a deadlock (unless the overlap has happened, after
+(* no reachable state is a deadlock (unless an overlap has happened, after
    which nothing is claimed) *)
-Theorem podnode_no_deadlock : forall w ops sched w' ts' tr,
+Theorem general_no_deadlock : forall w ops sched w' ts' tr,
   ref_ok w = true -> NoDup (node_names w) -> held w = [] ->
   run_sched w (mk_threads (map (fun o => (rop_of o, None)) ops)) sched [] = (w', ts', tr) ->
-  window_addnode_removepod tr = true \/ forallb finished ts' = true \/ enabled_steps w' ts' <> [].
+  window_addnode_removepod tr = true \/ window_create_removenode tr = true \/
+  forallb finished ts' = true \/ enabled_steps w' ts' <> [].
 Proof.
   intros w ops sched w' ts' tr Hr Hnd Hh Hrun.
   destruct (run_sched_J sched w _ [] (map pc0 ops) w' ts' tr (threads_R ops)
-              (or_intror (inv_init w ops Hr Hnd Hh)) Hrun) as [pcs' [F [Hw|Hv]]].
+              (or_intror (or_intror (inv_init w ops Hr Hnd Hh))) Hrun) as [pcs' [F [Hw|[Hw|Hv]]]].
   - left. apply Ovl_window. exact Hw.
-  - right. eapply inv_progress; eauto.
+  - right. left. apply Ovl2_window. exact Hw.
+  - right. right. eapply inv_progress; eauto.
 Qed.
